@@ -671,6 +671,23 @@ def _one_resample(c):
     i = np.argwhere(yu != exp)
     bad(f'resample:{c["choice"]}:positions', f'first differing index {i[0].tolist() if len(i) else None}: '
                                              f'code {yu[tuple(i[0])] if len(i) else None} spec {exp[tuple(i[0])] if len(i) else None}')
+  # the two directions called directly are the function the dispatcher chose, and each rejects the other direction
+  up = c['choice'] == 'up'
+  direct = getattr(cs, 'get_spectral_upsample_fn' if up else 'get_spectral_downsample_fn', None)
+  other = getattr(cs, 'get_spectral_downsample_fn' if up else 'get_spectral_upsample_fn', None)
+  if direct is not None:
+    y2 = direct(src, dst, expect_same_vertical=same)(state)
+    for k in state:
+      p_, q_ = np.asarray(y2[k]), np.asarray(y[k])
+      if p_.shape != q_.shape or p_.tobytes() != q_.tobytes():
+        bad(f'resample:{c["choice"]}:direct', f'{direct.__name__} and get_spectral_interpolate_fn disagree on leaf {k!r} ({p_.shape} vs {q_.shape})')
+  strictly = all((a_ < b_) if up else (a_ > b_) for a_, b_ in zip(c['src_shape'], c['dst_shape']))
+  if other is not None and mult == 0 and strictly:
+    try:
+      other(src, dst, expect_same_vertical=same)
+      bad(f'resample:{c["choice"]}:wrong_direction_accepted', f'{other.__name__} accepted modal shapes {c["src_shape"]} -> {c["dst_shape"]}')
+    except ValueError:
+      pass
   # orography helpers are the same interpolation / clipping applied to a nodal field
   from dinosaur import primitive_equations as pe
   if hasattr(pe, 'filtered_modal_orography') and hasattr(pe, 'truncated_modal_orography'):
